@@ -103,6 +103,15 @@ func c06History(r *Run) {
 // shows it and not its fallback.
 func c06UnicodeSpaceContent() []c06Case {
 	var out []c06Case
+	// a slot prop bound to an OBJECT LITERAL reaches the content as an object: its fields are read there, under the declared name and
+	// destructured
+	dd := map[string]any{"items": []any{"a", "b", "c"}, "n": 7}
+	out = append(out,
+		c06Case{desc: "object-literal-prop/var", files: map[string]string{"p.vuego": `<template include="c.vuego"><template #row="p">[{{ p.cell.label }}|{{ p.cell.pos }}|{{ p.plain }}]</template></template>`,
+			"c.vuego": `<ul><li v-for="(i, it) in items"><slot name="row" :cell="{ pos: i, label: it }" :plain="it"></slot></li></ul>`}, data: dd, want: "[a|0|a][b|1|b][c|2|c]"},
+		c06Case{desc: "object-literal-prop/destructured", files: map[string]string{"p.vuego": `<template include="c.vuego"><template v-slot:row="{ cell }">[{{ cell.label }}|{{ cell.n }}]</template></template>`,
+			"c.vuego": `<ul><slot name="row" :cell="{ n: n, label: 'L' }"></slot></ul>`}, data: dd, want: "[L|7]"},
+	)
 	for _, sp := range []struct{ name, src, text string }{{"nbsp", "&nbsp;", " "}, {"emsp", "&emsp;", " "}, {"ideographic", "　", "　"}, {"nbsp-blank-nbsp", "&nbsp; &nbsp;", "  "}} {
 		out = append(out,
 			c06Case{desc: "unicode-space-content " + sp.name + "/alone", files: map[string]string{"p.vuego": `<template include="c.vuego">` + sp.src + `</template>`, "c.vuego": `<div>[<slot>FB</slot>]</div>`}, data: map[string]any{}, want: "[" + sp.text + "]"},
@@ -110,6 +119,7 @@ func c06UnicodeSpaceContent() []c06Case {
 			c06Case{desc: "unicode-space-content " + sp.name + "/named", files: map[string]string{"p.vuego": `<template include="c.vuego"><template #head>` + sp.src + `</template></template>`, "c.vuego": `<div>[<slot name="head">FB</slot>|<slot>D</slot>]</div>`}, data: map[string]any{}, want: "[" + sp.text + "|D]"},
 		)
 	}
+	_ = 0
 	// ASCII white space alone is layout: nothing was supplied, the fallback shows
 	out = append(out, c06Case{desc: "unicode-space-content ascii-blank/alone", files: map[string]string{"p.vuego": "<template include=\"c.vuego\"> \n\t </template>", "c.vuego": `<div>[<slot>FB</slot>]</div>`}, data: map[string]any{}, want: "[FB]"})
 	return out
